@@ -817,7 +817,7 @@ def check_one_step(ctx, rule='R-ONESTEP'):
                                               'the first record of the second time step is taken as the first element of %s without testing that there is one: '
                                               'for a single-step file the index array is empty and the reader raises IndexError (the file written for one time '
                                               'step cannot be read back)' % norm(wcall)[:70]), oid=oid)
-    ctx.floor('step-boundary searches judged by R-ONESTEP', n, 3)
+    ctx.floor('step-boundary searches judged by R-ONESTEP', n, 2)
 
 
 def check_dead_carry(ctx, rule='R-CARRY'):
